@@ -9,7 +9,7 @@ PROP = {
                    "429/5xx/408 with retries, fail-then-ok, truncated bodies, dropped connections, corrupt gzip bodies, redirect chains, identical payloads. At both quiescent points: the "
                    "reactor tracks no seed and holds no token; no zeno-*/warc-* spool file in the WARC temp dir, the job dir or os.TempDir(); no item reachable from a finish message holds a body; the limiter table is "
                    "within workers x max-concurrent-assets; every connection has delivered or dropped its WARC records (library wait group = 0). After 4N vs after N (never against a cold start), "
-                   "each once stable for 5 consecutive samples: runtime.NumGoroutine and the number of entries of /proc/self/fd are equal. "
+                   "each once stable for 5 consecutive samples: runtime.NumGoroutine and the number of entries of /proc/self/fd are equal (more after 4N is declared a leak only when it persists, unchanged, for the whole no-progress window; fewer after 4N means the sample after N caught something on its way out and is noted, not failed). "
                    "C16/table: generated operation lists (Wait / AdjustOnFailure / OnSuccess over up to 6 x bound + 3 hosts, hot hosts and a long tail, 1..8 concurrent callers) on the real BucketManager: "
                    "len(buckets) <= maxBuckets after every operation."),
     "level_note": "Real time and real sockets; keep-alives are disabled by the WARC client (one connection per request) and CloseIdleConnections is called before sampling; origin connections are closed by the origins. Memory (heap) growth is not measured: the statement names goroutines, descriptors, bodies, temporary files, state entries and limiter buckets.",
@@ -17,11 +17,13 @@ PROP = {
     "assumptions": ["origins on 127.0.0.2+ (loopback only)", "stage once-guards are reset between lifecycles by overlay-only VerifReset hooks"],
     "units": [
         {"name": "c16net", "pkg": "./internal/pkg/verifnet", "run": "^TestVerif_C16_Net$", "kind": "rapid", "toolchain": "go124",
-         "facets": ["C16/net"], "checks": (1, 1), "shards": (2, 8), "shrinktime": (1, 1), "timeout": (600, 2400), "verbose": True,
-         "env": {"VERIF_N_C16_NMAX": (60, 150)}},
+         "facets": ["C16/net"], "checks": (1, 2), "shards": (2, 8), "shrinktime": (1, 1), "timeout": (600, 2400), "verbose": True,
+         "env": {"VERIF_N_C16_NMIN": (30, 70), "VERIF_N_C16_NMAX": (60, 150)}},
         {"name": "c16table", "pkg": "./internal/pkg/archiver/ratelimiter", "run": "^TestVerif_C16_Table$", "kind": "rapid", "toolchain": "go126",
          "facets": ["C16/table"], "checks": (3000, 40000), "shards": (2, 8), "timeout": (600, 2400)},
         {"name": "c16kf1", "pkg": "./internal/pkg/verifnet", "run": "^TestVerifKF_C16_CorruptGzipLeaksConnection$", "kind": "kf", "toolchain": "go124",
          "finding": "C16-corrupt-gzip-leaks-connection", "facets": [], "checks": (1, 1), "shards": (1, 1), "verbose": True},
+        {"name": "c16kf2", "pkg": "./internal/pkg/verifnet", "run": "^TestVerifKF_C16_DiscardedTruncatedLeaksSpoolFile$", "kind": "kf", "toolchain": "go124",
+         "finding": "C16-discarded-truncated-response-leaks-spool-file", "facets": [], "checks": (1, 1), "shards": (1, 1), "verbose": True},
     ],
 }
